@@ -1,6 +1,8 @@
 package harness
 
 import (
+	"encoding/binary"
+	"github.com/buildbarn/bb-storage/pkg/blobstore/sharding"
 	"io"
 	remoteexecution "github.com/bazelbuild/remote-apis/build/bazel/remote/execution/v2"
 	"bytes"
@@ -491,7 +493,8 @@ func c17ExistenceCache(c *sim.RunCtx) {
 	t := c.T.Plan
 	objs := drawSimpleObjs(t, 2+t.Choose(5), "")
 	size := 1 + t.Choose(4)
-	dur := time.Duration(1+t.Choose(20)) * time.Second
+	// (half seconds: what is configured must be what is applied)
+	dur := time.Duration(2+t.Choose(40)) * 500 * time.Millisecond
 	clients := 1 + t.Choose(3)
 	type eop struct {
 		Kind int // 0 find 1 sleep 2 backend put 3 backend delete
@@ -512,13 +515,16 @@ func c17ExistenceCache(c *sim.RunCtx) {
 					o.Set = append(o.Set, x)
 				}
 			}
-			o.D = time.Duration(1+t.Choose(15)) * time.Second
+			o.D = time.Duration(1+t.Choose(30)) * 500 * time.Millisecond
 			ops = append(ops, o)
 		}
 		plans = append(plans, ops)
 	}
 	policy := t.Choose(2) // (the random-replacement set seeds itself from the OS: not replayable)
-	desc := fmt.Sprintf("existence cache size=%d duration=%v policy=%d clients=%d", size, dur, policy, clients)
+	// half of the runs: decorator and cache built by the configuration code
+	// (cache size, duration and replacement policy from the message)
+	configured := t.Chance(1, 2)
+	desc := fmt.Sprintf("existence cache size=%d duration=%v policy=%d clients=%d configured=%v", size, dur, policy, clients, configured)
 	c.Sample["case"] = desc
 	c.Note("case %s plans=%v", desc, plans)
 	c.Sim(sim.SimOpts{MaxSteps: 200000, DeadlockClass: "deadlock"}, func(s *rt.Sched) {
@@ -533,7 +539,21 @@ func c17ExistenceCache(c *sim.RunCtx) {
 		default:
 			set = eviction.NewRRSet[string]()
 		}
-		ba := blobstore.NewExistenceCachingBlobAccess(backend, digest.NewExistenceCache(clk, digest.KeyWithoutInstance, size, dur, set))
+		var ba blobstore.BlobAccess
+		if configured {
+			pol := pb_eviction.CacheReplacementPolicy_LEAST_RECENTLY_USED
+			if policy == 1 {
+				pol = pb_eviction.CacheReplacementPolicy_FIRST_IN_FIRST_OUT
+			}
+			var restore func()
+			ba, _, restore = buildCompositeBare(c, s, clk, labelled(&pb_blobstore.BlobAccessConfiguration{Backend: &pb_blobstore.BlobAccessConfiguration_ExistenceCaching{ExistenceCaching: &pb_blobstore.ExistenceCachingBlobAccessConfiguration{
+				Backend:        labelConfig("backend"),
+				ExistenceCache: &pb_digest.ExistenceCacheConfiguration{CacheSize: int64(size), CacheDuration: durationpb.New(dur), CacheReplacementPolicy: pol},
+			}}}, "backend"), map[string]configuration.BlobAccessInfo{"backend": {BlobAccess: backend, DigestKeyFormat: digest.KeyWithoutInstance}})
+			defer restore()
+		} else {
+			ba = blobstore.NewExistenceCachingBlobAccess(backend, digest.NewExistenceCache(clk, digest.KeyWithoutInstance, size, dur, set))
+		}
 		ctx := context.Background()
 		done := 0
 		for ci := range plans {
@@ -630,7 +650,11 @@ func c17ExistenceCache(c *sim.RunCtx) {
 // cache must be keyed by the combined format, or presence seen under one
 // instance name hides absence under another. The leaves only gain objects, so
 // no cached answer can go stale and FindMissing must be exact.
-func c17ExistenceCacheOverComposite(c *sim.RunCtx) {
+func c17ExistenceCacheOverComposite(c *sim.RunCtx) { existenceCacheOverComposite(c, -1) }
+
+// existenceCacheOverComposite: fixedKind >= 0 pins the composite (C11 uses
+// the mirror).
+func existenceCacheOverComposite(c *sim.RunCtx, fixedKind int) {
 	t := c.T.Plan
 	base := drawSimpleObjs(t, 2+t.Choose(3), "")
 	insts := []string{"", "a", "x"}
@@ -661,7 +685,20 @@ func c17ExistenceCacheOverComposite(c *sim.RunCtx) {
 		ops = append(ops, o)
 	}
 	swap := t.Chance(1, 2) // which side is instance-aware
-	desc := fmt.Sprintf("existence cache over read_fallback: objects=%d ops=%d instanceAwarePrimary=%v", len(objs), len(ops), swap)
+	// the composite behind the cache: every one of them has to announce the
+	// combination of its members' key formats
+	kind := t.Choose(4)
+	if fixedKind >= 0 {
+		kind = fixedKind
+	}
+	kindName := []string{"read_fallback", "mirrored", "sharding", "read_caching"}[kind]
+	// reference routing for the sharding composite: the repository's own
+	// selector over the same (key, weight) pairs, index 0 = "p", 1 = "s"
+	shardSel, err := sharding.NewRendezvousShardSelector([]sharding.Shard{{Key: "p", Weight: 1}, {Key: "s", Weight: 2}})
+	if err != nil {
+		panic(sim.HarnessError{Msg: "selector: " + err.Error()})
+	}
+	desc := fmt.Sprintf("existence cache over %s: objects=%d ops=%d instanceAwarePrimary=%v", kindName, len(objs), len(ops), swap)
 	c.Sample["case"] = desc
 	c.Note("case %s ops=%v", desc, ops)
 	c.Sim(sim.SimOpts{MaxSteps: 100000, DeadlockClass: "deadlock"}, func(s *rt.Sched) {
@@ -674,9 +711,23 @@ func c17ExistenceCacheOverComposite(c *sim.RunCtx) {
 		clk := sim.NewClock(s)
 		// (the CAS creator builds the existence cache's backend itself, so the
 		// leaves are declared as labels and referenced by {label: ...})
+		var inner *pb_blobstore.BlobAccessConfiguration
+		switch kind {
+		case 0:
+			inner = &pb_blobstore.BlobAccessConfiguration{Backend: &pb_blobstore.BlobAccessConfiguration_ReadFallback{ReadFallback: &pb_blobstore.ReadFallbackBlobAccessConfiguration{
+				Primary: labelConfig("P"), Secondary: labelConfig("S"), Replicator: replicatorConfig(rsNoop, 1)}}}
+		case 1:
+			inner = &pb_blobstore.BlobAccessConfiguration{Backend: &pb_blobstore.BlobAccessConfiguration_Mirrored{Mirrored: &pb_blobstore.MirroredBlobAccessConfiguration{
+				BackendA: labelConfig("P"), BackendB: labelConfig("S"), ReplicatorAToB: replicatorConfig(rsLocal, 1), ReplicatorBToA: replicatorConfig(rsLocal, 1)}}}
+		case 2:
+			inner = &pb_blobstore.BlobAccessConfiguration{Backend: &pb_blobstore.BlobAccessConfiguration_Sharding{Sharding: &pb_blobstore.ShardingBlobAccessConfiguration{
+				Shards: map[string]*pb_blobstore.ShardingBlobAccessConfiguration_Shard{"p": {Backend: labelConfig("P"), Weight: 1}, "s": {Backend: labelConfig("S"), Weight: 2}}}}}
+		default:
+			inner = &pb_blobstore.BlobAccessConfiguration{Backend: &pb_blobstore.BlobAccessConfiguration_ReadCaching{ReadCaching: &pb_blobstore.ReadCachingBlobAccessConfiguration{
+				Slow: labelConfig("S"), Fast: labelConfig("P"), Replicator: replicatorConfig(rsNoop, 1)}}}
+		}
 		ba, _, restore := buildComposite(c, s, clk, labelled(&pb_blobstore.BlobAccessConfiguration{Backend: &pb_blobstore.BlobAccessConfiguration_ExistenceCaching{ExistenceCaching: &pb_blobstore.ExistenceCachingBlobAccessConfiguration{
-			Backend: &pb_blobstore.BlobAccessConfiguration{Backend: &pb_blobstore.BlobAccessConfiguration_ReadFallback{ReadFallback: &pb_blobstore.ReadFallbackBlobAccessConfiguration{
-				Primary: labelConfig("P"), Secondary: labelConfig("S"), Replicator: replicatorConfig(rsNoop, 1)}}},
+			Backend: inner,
 			ExistenceCache: &pb_digest.ExistenceCacheConfiguration{CacheSize: 64, CacheDuration: durationpb.New(1000 * time.Second), CacheReplacementPolicy: pb_eviction.CacheReplacementPolicy_LEAST_RECENTLY_USED},
 		}}}, "P", "S"), map[string]configuration.BlobAccessInfo{"P": {BlobAccess: P, DigestKeyFormat: kfP}, "S": {BlobAccess: S, DigestKeyFormat: kfS}})
 		defer restore()
@@ -699,6 +750,26 @@ func c17ExistenceCacheOverComposite(c *sim.RunCtx) {
 				for _, x := range o.Set {
 					sb.Add(objs[x].D)
 				}
+				// what the backends held when the call was made (a mirror
+				// copies during the call, and a copy into an instance-agnostic
+				// replica makes every instance's variant present)
+				heldNow := func(x int) bool {
+					switch kind {
+					case 2: // only the shard the hash is routed to counts
+						hb := objs[x].D.GetHashBytes()
+						if shardSel.GetShard(binary.BigEndian.Uint64(hb[:8])) == 0 {
+							return P.Has(objs[x].D)
+						}
+						return S.Has(objs[x].D)
+					case 3: // read caching asks the slow backend only
+						return S.Has(objs[x].D)
+					}
+					return P.Has(objs[x].D) || S.Has(objs[x].D)
+				}
+				heldBefore := map[int]bool{}
+				for _, x := range o.Set {
+					heldBefore[x] = heldNow(x)
+				}
 				missing, err := ba.FindMissing(ctx, sb.Build())
 				if err != nil {
 					c.Fail("spurious-error", "FindMissing failed: %v [%s]", err, desc)
@@ -709,9 +780,13 @@ func c17ExistenceCacheOverComposite(c *sim.RunCtx) {
 					miss[d] = true
 				}
 				for _, x := range o.Set {
-					held := P.Has(objs[x].D) || S.Has(objs[x].D)
-					if miss[objs[x].D] && held {
+					held := heldNow(x)
+					if miss[objs[x].D] && heldBefore[x] {
 						c.Fail("present-reported-missing", "FindMissing reports %s missing although a backend holds it [%s]", objs[x].D, desc)
+						return
+					}
+					if kind == 1 && !miss[objs[x].D] && held && !(P.Has(objs[x].D) && S.Has(objs[x].D)) {
+						c.Fail("findmissing-did-not-synchronise", "FindMissing through the cached mirror reports %s present, but afterwards the replicas hold it: A=%v B=%v [%s]", objs[x].D, P.Has(objs[x].D), S.Has(objs[x].D), desc)
 						return
 					}
 					if !miss[objs[x].D] && !held {
